@@ -169,7 +169,7 @@ def main():
         key = pb.get("key")
         kf = next((k for k in known if k["key"] == key), None) if key else None
         if kf is not None:
-            known_lines[key] = "KNOWN-FINDING: property=%s %s" % (pid, kf["what"]); continue
+            known_lines[key] = "KNOWN-FINDING: property=%s %s" % (pid, kf["what"]); stats["known_finding_hits"] = stats.get("known_finding_hits", 0) + 1; continue
         sig = (pb.get("what"), json.dumps(pb["case"], sort_keys=True, default=str))
         if sig in seen: continue
         seen.add(sig)
@@ -217,7 +217,8 @@ def main():
             "rule": getattr(mod, "RULE", "generated cases; non-trivial = distinct case"),
             "samples": [{k: v for k, v in c.items() if k != "_id"} for c in cases[:3]] or ["(none)"],
             "distribution": dist, "hash_seeds": seeds, "model_out_of_fuel_cases": stats["model_fuel"],
-            "disagreements": stats["diffs"], "implementation_exceptions_unexpected": stats["impl_errors"],
+            "disagreements": stats["diffs"] - stats.get("known_finding_hits", 0), "known_finding_hits": stats.get("known_finding_hits", 0),
+            "implementation_exceptions_unexpected": stats["impl_errors"],
             "known_findings_reported": sorted(known_lines),
             "explanation": getattr(mod, "EXPLANATION", ""),
         },
@@ -228,7 +229,7 @@ def main():
     with open(os.path.join(common.SCRATCH, pid + ".log") if os.path.isdir(common.SCRATCH) else os.devnull, "w") as f: f.write("\n".join(log))
     for l in known_lines.values(): print(l)
     print("%s tier=%s: %d/%d proof obligations discharged; %d cases x %d hash seeds, %d disagreements, %d model out-of-fuel; %.1fs" % (
-        pid, tier, ev["coverage"]["discharged"], pr["obligations"], len(cases), len(seeds), stats["diffs"], stats["model_fuel"], time.time() - t0))
+        pid, tier, ev["coverage"]["discharged"], pr["obligations"], len(cases), len(seeds), stats["diffs"] - stats.get("known_finding_hits", 0), stats["model_fuel"], time.time() - t0))
     for path, suffix in violations:
         print("VIOLATION property=%s replay=%s%s" % (pid, path, suffix))
     sys.exit(1 if violations else 0)
